@@ -254,3 +254,14 @@ package meta
 //@   ensures [unstatedAboveEarlier] forall k int, j int :: 0 <= j && j < k && k < len(bits) && !bits[k].posSet ==> bits[j].Position < bits[k].Position
 //@   ensures [unstatedIsNext] forall k int :: 0 < k && k < len(bits) && !bits[k].posSet ==> (exists j int :: 0 <= j && j < k && bits[k].Position == bits[j].Position + 1)
 //@   ensures [firstIsZero] len(bits) > 0 && !bits[0].posSet ==> bits[0].Position == 0
+
+// ---- C11: what decides whether a guarded definition is kept ---------------------------------------------------------
+// Resolve answers from its cache or evaluates the expression against the enabled features — in every feature
+// configuration (all-on is not a shortcut: "not a" is false when everything is on)
+//@ func (self *supportedFeatures) Resolve(f *IfFeature) (bool, error)
+//@   mode int
+//@   property C11
+//@   requires self != nil && f != nil && self.cache != nil
+//@   callsite Evaluate: recv == f && arg0 == self.enabled
+//@   check [evaluatedUnlessCached] result1 == nil && !found ==> result0 == on$2
+//@   check [cachedValue] found ==> result1 == nil && result0 == on
